@@ -31,7 +31,7 @@ def run_c15(ctx):
     p_tree.deep_chain(ctx, exe, 160 if q else 400, props)
     # clear on containers of 10^5 - 10^6 elements (exactly once each, nothing touched afterwards, empty and reusable)
     from . import p_big
-    p_big.big_phase(ctx, ["rb:100000", "bst:20000", "map:400000"] if q else ["rb:400000", "bst:40000", "map:1500000"])
+    p_big.big_phase(ctx, ["rb:100000", "bst:20000", "map:400000"] if q else ["rb:400000", "bst:30000", "map:1500000"])
     ctx.assumptions += [
         "the clear callback scribbles 0xA5 over the element's links (trees, heap, lists) - a later read of them by the library faults or corrupts the logged state; map nodes are freed by the library itself and checked through the allocator interposer (freed blocks are poisoned and must stay untouched)",
         "'usable like a fresh container' is decided by the post-state being the canonical initial state, from which the closure continues",
@@ -54,6 +54,9 @@ def run_c16(ctx):
         p_str.closure(ctx, wide, "wstr", 4, 3, props)
     exe = build(ctx, "drv_hash", "drv_hash.c", p_hash.LIB, wrap=p_hash.WRAP, flags=REL_FLAGS + ["-Wl,--allow-multiple-definition"])
     p_hash.closure(ctx, exe, "hash", [0, 1, 1] if q else [0, 1, 1, 2], 3, [0, 1, 2], False, False, True, 0 if q else 1, props)
+    # random histories with failing allocations on tables of up to 24 buckets (growth by less than half, shrinks)
+    hexe = build(ctx, "drv_hash2", "drv_hash.c", p_hash.LIB, wrap=p_hash.WRAP, flags=REL_FLAGS + ["-Wl,--allow-multiple-definition"])
+    p_hash.rand_phase(ctx, hexe, "rand-hash", random.Random(ctx.seed), 30, 12, 24, 3000 if q else 20000, 2, props, faults=1)
     exe = build(ctx, "drv_ptr", "drv_ptr.c", p_ptr.LIB, wrap=p_ptr.WRAP)
     p_ptr.closure(ctx, exe, "ptr", 2, 1, 1, True, False, props)
     exe = build(ctx, "drv_arr", "drv_arr.c", p_arr.LIB, wrap=p_arr.WRAP)
